@@ -13,6 +13,6 @@ namespace Fips204.SrcTie.Shape
 open Fips204.Gen
 
 /-- the text of `sign_internal` is the one Impl.signInternal / signLoop / signAttempt was modelled on -/
-theorem ml_dsa_sign_internal_text_unchanged : Shapes.ml_dsa_sign_internal = 1108451765945027876 := rfl
+theorem ml_dsa_sign_internal_text_unchanged : Shapes.ml_dsa_sign_internal = 895950819683158753 := rfl
 
 end Fips204.SrcTie.Shape
